@@ -10,6 +10,50 @@ CLAIMED = {
             "Generated-input search: every byte-string length 0..80, every UEID type byte, all lifecycle range ends, the full single-edit neighbourhood of both certification-reference forms (enumerated completely) plus tens of thousands of random multi-deviation class vectors per run are judged by Validate() and by an independent rule model; any disagreement in either direction is a violation. Exploration is the right level: the space (~1e8 class combinations) is finite but too large to enumerate, while every boundary the rules mention is enumerated.",
             "Trusts the harness's own model of the rules (written from the property statement) and the struct-literal construction route (components injected with reflect/unsafe, P2 nonce containers through eat.Nonce's decoder).",
             "DESIGN.md §4 C01"),
+    "C02": ("complete single-bit-flip sweeps + rapid splices/truncations/edits/wrong keys; independent COSE field splitter decides which mutants must not verify",
+            "Generated-input search over mutated tokens: for tokens signed with each of the 7 algorithms every single-bit flip is tried (complete sweep for the fast algorithms in quick, all in thorough), plus random splices of protected/payload/signature content between tokens, truncations, multi-byte edits, foreign signatures, envelopes lacking alg/payload/signature, and every wrong-key pairing. A mutant whose protected, payload or signature content differs (as split by an independent CBOR reader) must fail to decode or fail to verify. Exploration: the mutation space is unbounded; the single-bit neighbourhood is enumerated.",
+            "Trusts the independent splitter (icbor/icose) to say which bytes the signature covers; ECDSA malleability (r, n-s) is outside the property and not generated.",
+            "DESIGN.md §4 C02"),
+    "C03": ("rapid round trips over valid claims x 7 algorithms x keys, checked by an independent COSE parser and independent signature verifier",
+            "Generated-input search: valid claims-sets of both profiles (all optional subsets, hash sizes, 1..4 components) are signed with every algorithm go-cose supports; the token is parsed by the harness's own CBOR reader (tag 18, 4-array, protected = {1: alg}, payload byte-identical to the validated encoding), verified by the harness's own crypto/* based verifier, then decoded and verified by the library and compared claim for claim. Exploration: inputs are unbounded.",
+            "Trusts crypto/ecdsa, ed25519 and rsa-PSS from the Go standard library and the harness's Sig_structure builder.",
+            "DESIGN.md §4 C03"),
+    "C08": ("rapid: C01's valid and invalid claims-sets through all validating entry points, differential against Validate() and the non-validating sibling",
+            "Generated-input search: each generated claims-set (0..4 deviating claims) goes through SetClaims, validate-and-encode CBOR/JSON, ValidateAndSign and the decode-and-validate variants (CBOR, JSON, COSE); a gate must fail iff Validate() fails (and iff the model says invalid), emit/attach nothing on failure, and equal its non-validating sibling on success.",
+            "Trusts the profile model for the iff direction; bytes for decode gates come from the library's non-validating encoder or the independent encoder.",
+            "DESIGN.md §4 C08"),
+    "C09": ("rapid round trips (valid sets of both profiles and extension profiles, decodable-but-invalid tokens): observation equality + byte stability",
+            "Generated-input search: decode(encode(x)) must give identical results from every getter and encode(decode(encode(x))) identical bytes; for tokens that decode but are invalid the encoder must error or round-trip to the same observations.",
+            "Observation = all getters + component getters + validity; trusts those getters to expose all claim state.",
+            "DESIGN.md §4 C09"),
+    "C10": ("rapid: emitted CBOR parsed by an independent strict CBOR reader and compared with the model's expected wire map",
+            "Generated-input search: for valid sets built through setters and obtained by decoding (permuted keys, extra keys, no-measurements form) the emitted bytes must be one definite-length map, no duplicates, nothing trailing, exactly the expected integer keys with exact types and values, single nonce bare, never list+flag.",
+            "Trusts the independent reader and the model's key table (taken from the property statement).",
+            "DESIGN.md §4 C10"),
+    "C11": ("exhaustive setter sweeps (lengths 0..80, cert-ref edit neighbourhood) + rapid state machine of 1..40 setter calls against a reference model",
+            "Generated histories: every setter of both profiles and of the component type is swept over the value classes of C01; random interleavings of valid and invalid setter calls are compared step by step with a reference model (success iff the rule accepts; getter returns the value; failure leaves every observation unchanged; final encoding equals that of a fresh set given only the final values).",
+            "Trusts the model rules; observation is getters + both encodings + validity.",
+            "DESIGN.md §4 C11"),
+    "C12": ("rapid: JSON round trip, CBOR->JSON->CBOR byte equality, and generic encoding/json parse of the emitted document vs the model's expected object",
+            "Generated-input search over valid sets with hostile text (non-ASCII, control, quotes), negative client ids, P1 without explicit profile; member names, base64 payloads and omissions are checked by the standard library's generic JSON parser against the model.",
+            "Trusts encoding/json's generic decoder and base64 from the standard library.",
+            "DESIGN.md §4 C12"),
+    "C13": ("rapid: per-claim defect x route table of expected errors.Is classes; constructed error trees for FilterError with by-construction truth",
+            "Generated-input search: each claim/field defect alone must produce exactly the expected sentinel class through getter, Validate and setter routes, combinations must produce the class of some offending claim; FilterError is run on error trees built from sentinels, derived errors, look-alike fresh errors and five wrapper kinds, and must return nil iff a missing-optional/not-in-profile sentinel is reachable, else the identical error value.",
+            "Three ambiguous cells (empty-but-present list, empty nonce container) accept either of two classes, see DESIGN.md.",
+            "DESIGN.md §4 C13"),
+    "C14": ("exhaustive enumeration of all 65 536 lifecycle values against a table oracle",
+            "Every uint16 value is pushed through LifeCycleToState, IsValid, ValidateSecurityLifeCycle, both profiles' setter/getter (setter and struct-literal routes) and CBOR decode-and-validate, compared with a table oracle; state names compared with the specified strings. The input space is finite and enumerated completely (exhaustive: true).",
+            "Trusts the seven-range table written from the property statement.",
+            "DESIGN.md §4 C14"),
+    "C19": ("rapid state machine over one Evidence with injected signer faults, against a reference model of the envelope/claims binding",
+            "Generated histories (1..30 steps) of SetClaims / Sign / ValidateAndSign / UnmarshalCOSE / Verify with faulty signers (error, empty signature, junk, unsupported algorithm) and hostile tokens at arbitrary positions; after every step the model's invariants are checked (failed operation returns nothing; after failed sign every Verify fails; Verify success implies claims equal the decoding of the covered payload; a later good sign succeeds).",
+            "Trusts the independent splitter for 'the payload the signature covers' and by-construction knowledge of which key verifies which token.",
+            "DESIGN.md §4 C19"),
+    "C20": ("enumerated envelope grid built with an independent CBOR/COSE encoder; independent well-formedness classifier as oracle",
+            "Enumeration of structurally mutated envelopes around correctly signed material (tags none/0..30/61/98/nested, array lengths 0..6, each element replaced by 20 other items and by indefinite / long-head forms, 18 payload variants, trailing bytes, TF-M Mac0/Sign1 vectors): decoding may succeed only if the independent classifier sees a tag-18 4-array bstr/map/bstr(map)/non-empty bstr with nothing after it.",
+            "Only the 'only' direction is judged (acceptance of valid material is C03); tagged payload items carry no verdict.",
+            "DESIGN.md §4 C20"),
 }
 
 NOT_YET = "check not built yet in this session (see DESIGN.md §4 for the planned generator and oracle); will be claimed when its quick tier runs clean"
